@@ -163,8 +163,10 @@ def pipeline_strategy(*, max_ops=3, max_vars=3, max_K=2, semirings=("sum-product
         full = frozenset(dom)
         pipe = [{"op": "base", "i": i} for i in range(nb)]
         # per-node model: scope, units, pure (only layers that have conjugate/multiply/differentiate rules)
-        info = [{"scope": full, "K": _root_units(b), "pure": True, "O": len(b["outputs"]), "diff": False}
-                for b in bases]
+        # mixed: outputs with different scopes (integrating a variable an output does not depend
+        # on is not what the operator is specified for), so no integrate after that
+        info = [{"scope": full, "K": _root_units(b), "pure": True, "O": len(b["outputs"]), "diff": False,
+                 "mixed": False} for b in bases]
         nops = draw(st.integers(1, max_ops))
         for _ in range(nops):
             ops_ok = []
@@ -173,7 +175,8 @@ def pipeline_strategy(*, max_ops=3, max_vars=3, max_K=2, semirings=("sum-product
             nonempty = [i for i in idx if info[i]["scope"]]
             if pure:
                 ops_ok += ["conjugate", "multiply", "multiply"]
-            if family == "prob" and [i for i in nonempty if not info[i]["diff"]]:
+            integrable = [i for i in nonempty if not info[i]["diff"] and not info[i]["mixed"]]
+            if family == "prob" and integrable:
                 ops_ok += ["integrate", "integrate"]
             if family == "poly" and [i for i in pure if info[i]["scope"] and info[i]["O"] <= 2]:
                 ops_ok += ["differentiate", "differentiate"]
@@ -194,9 +197,9 @@ def pipeline_strategy(*, max_ops=3, max_vars=3, max_K=2, semirings=("sum-product
                 b = draw(st.sampled_from(cands))
                 pipe.append({"op": op, "a": a, "b": b})
                 info.append({"scope": info[a]["scope"], "K": info[a]["K"] * info[b]["K"], "pure": True,
-                             "O": info[a]["O"] * info[b]["O"], "diff": False})
+                             "O": info[a]["O"] * info[b]["O"], "diff": False, "mixed": False})
             elif op == "integrate":
-                a = draw(st.sampled_from([i for i in nonempty if not info[i]["diff"]]))
+                a = draw(st.sampled_from(integrable))
                 Z = draw_subset(draw, info[a]["scope"])
                 pipe.append({"op": op, "a": a, "Z": Z})
                 info.append(dict(info[a], scope=info[a]["scope"] - frozenset(Z), pure=False))
@@ -218,7 +221,9 @@ def pipeline_strategy(*, max_ops=3, max_vars=3, max_K=2, semirings=("sum-product
                 pipe.append({"op": op, "as": chosen})
                 info.append({"scope": frozenset().union(*[info[i]["scope"] for i in chosen]), "K": info[a]["K"],
                              "pure": all(info[i]["pure"] for i in chosen), "O": sum(info[i]["O"] for i in chosen),
-                             "diff": any(info[i]["diff"] for i in chosen)})
+                             "diff": any(info[i]["diff"] for i in chosen),
+                             "mixed": any(info[i]["mixed"] for i in chosen)
+                             or len({info[i]["scope"] for i in chosen}) > 1})
         return dict(cfg, bases=bases, pipe=pipe, family=family)
 
     return _s()
